@@ -52,7 +52,8 @@ func C14(c *run.Ctx) int {
 		return id, o
 	})
 	c14Derived(c)
-	return c.Finish("generated programs with override declarations of bool / i32 / u32 / f32 (initialisers over literals, module constants and earlier overrides; overrides read in function bodies) x value maps (none, by @id, by name, partial, full) x resolution paths: ir.ProcessOverrides followed by the IR interpreter, by SPIR-V + interpreter and by HLSL / MSL / GLSL + interpreters, and the PipelineConstants options of the GLSL and MSL backends; every path's buffers are compared with wref evaluating the program with the overrides bound to the same values; a missing value without default must be an error; the caller's module must be unchanged (canonical dump); NaN / out-of-range values must not panic; a second, template-based campaign covers @workgroup_size arguments and module-scope initialisers derived from overrides (expected invocation count and values computed from the WGSL rules; resolved module run by the IR and SPIR-V interpreters); "+
+	c14Order(c)
+	return c.Finish("plus straight-line load / store / pointer-let / side-effecting-call sequences interleaved with foldable override expressions, whose final memory image is computed by executing the statements in order and compared on 7 resolution paths (statement order must survive the arena rewrite of override resolution); generated programs with override declarations of bool / i32 / u32 / f32 (initialisers over literals, module constants and earlier overrides; overrides read in function bodies) x value maps (none, by @id, by name, partial, full) x resolution paths: ir.ProcessOverrides followed by the IR interpreter, by SPIR-V + interpreter and by HLSL / MSL / GLSL + interpreters, and the PipelineConstants options of the GLSL and MSL backends; every path's buffers are compared with wref evaluating the program with the overrides bound to the same values; a missing value without default must be an error; the caller's module must be unchanged (canonical dump); NaN / out-of-range values must not panic; a second, template-based campaign covers @workgroup_size arguments and module-scope initialisers derived from overrides (expected invocation count and values computed from the WGSL rules; resolved module run by the IR and SPIR-V interpreters); "+
 		"distinct = distinct (generator features, map kind, paths that produced output); non-trivial = an override value influenced a compared leaf is not measured — conservative: at least one leaf changed",
 		[]string{"operators other than + - * in override initialisers are a listed known finding (gated)", "conversion of NaN / out-of-range pipeline values is not asserted beyond absence of panics and module mutation"})
 }
